@@ -39,7 +39,7 @@ fn main() {
         "pattern-trace" => ptrace::run(&get("tier", "quick"), get("seed", "1").parse().unwrap(), get("shards", "8").parse().unwrap(), &get("out", "/verif/work/ptrace")),
         "utf32-trace" => utrace::run(&get("tier", "quick"), get("seed", "1").parse().unwrap(), get("shards", "8").parse().unwrap(), &get("out", "/verif/work/utrace")),
         "score-trace" => strace::run(&get("tier", "quick"), get("seed", "1").parse().unwrap(), get("shards", "8").parse().unwrap(), &get("out", "/verif/work/strace")),
-        "worker-order" => workersort::run(&get("tier", "quick"), get("seed", "1").parse().unwrap(), get("shards", "8").parse().unwrap(), &get("out", "/verif/work/workerorder")),
+        "worker-order" => workersort::run(&get("tier", "quick"), get("seed", "1").parse().unwrap(), get("shards", "8").parse().unwrap(), &get("out", "/verif/work/workerorder"), get("stress-only", "0") == "1"),
         "sort-trace" => sorttrace::run(&get("tier", "quick"), get("seed", "1").parse().unwrap(), get("shards", "8").parse().unwrap(), &get("out", "/verif/work/sorttrace")),
         "boxcar-sched" => boxsched::run(&get("tier", "quick"), get("seed", "1").parse().unwrap(), get("shards", "8").parse().unwrap(), &get("out", "/verif/work/boxsched"), a.get("only").map(|s| s.as_str()), a.get("shard").map(|s| s.parse().unwrap()), get("from", "0").parse().unwrap()),
         "nucleo-sched" => nucsched::run(&get("tier", "quick"), get("seed", "1").parse().unwrap(), get("shards", "8").parse().unwrap(), &get("out", "/verif/work/nucsched"), a.get("only").map(|s| s.as_str()), a.get("shard").map(|s| s.parse().unwrap()), get("from", "0").parse().unwrap()),
